@@ -103,6 +103,10 @@ def decode_message(msg_bytes, time=0, check=True):
         check_data(data)
 
     if status_byte in _SPECIAL_CASES:
+        if status_byte != SYSEX_START and len(data) != spec['length'] - 1:
+            raise ValueError(
+                'wrong number of bytes for {} message'.format(spec['type']))
+
         if status_byte in CHANNEL_MESSAGES:
             msg['channel'] = status_byte & 0x0f
 
